@@ -107,6 +107,10 @@ def _run_model(case, ctx):
     except Exception as exc:
         ctx.violation("%s/construct" % name, "model cannot be built from parameters in bounds", P=P, exc=exc)
         return
+    if case["seed"] % 4 == 2 and len(m.params) > 1:
+        # the parameter dictionary as the user wrote it down: same names, another order of the keys
+        m.params = dict(reversed(list(m.params.items())))
+        ctx.count("model_objects", name + "/parameter-dictionary-in-another-key-order")
     dg = _digest(P)
     # another instance of the same model class (other parameters) is evaluated first, at fixed arguments: instances share nothing
     try:
